@@ -11,7 +11,7 @@ RULE = (
     "fixed_rows(io.StringIO(text, newline='')). Oracle per case: soundness - no exception other than DataFormatError, every "
     "item has its declared width, and the input can be rebuilt from the rows by inserting delimiters the setting permits "
     "(final one optional); completeness - inputs that are records of non-delimiter characters joined by permitted "
-    "delimiters are accepted and cut exactly by the widths. Plus random well-formed files of 5-40 records with one "
+    "delimiters are accepted and cut exactly by the widths. Plus histories: a read abandoned after 1-2 rows (generator closed, dropped or kept) followed by a complete read of another well-formed input. Plus random well-formed files of 5-40 records with one "
     "character deleted / inserted / replaced at every offset, read from streams and from real files (utf-8, cp1252). "
     "Cases are distinct by construction (enumeration); all non-empty inputs count as non-trivial."
 )
@@ -160,6 +160,10 @@ def run(ctx):
     ctx.exhaustive = True
     ctx.note("exhaustive part: %d strings x %d width lists x %d settings" % (len(strings), len(wl), len(SETTINGS)))
     ctx.floor("sweep.cases", len(strings))
+    # ---- history part: reads that are abandoned half way, then complete reads
+    for i in range(ctx.pick(600, 20000)):
+        if ctx.mine(i):
+            abandoned_then_fresh(ctx, rowio, errors, ctx.rng("abandon", i))
     # ---- fault part: mutations of longer well-formed files
     n = ctx.pick(60, 1500)
     for i in range(n):
@@ -188,6 +192,39 @@ def run(ctx):
                 mutated = text[:offset] + ("" if kind == "delete" else ch) + (text[offset:] if kind == "insert" else text[offset + 1 :])
                 use_file = (offset % 7 == 0)
                 judge_mutant(ctx, rowio, errors, mutated, widths, setting, fields, rng.choice(["utf-8", "cp1252"]) if use_file else None)
+
+
+def abandoned_then_fresh(ctx, rowio, errors, rng):
+    """A read that is abandoned after k rows must not influence the next read (of any source, with any setting)."""
+    widths = tuple(rng.randint(1, 3) for _ in range(rng.randint(1, 3)))
+    fields = [("f%d" % k, w) for k, w in enumerate(widths)]
+    total = sum(widths)
+    first_setting = rng.choice(["any", "any", "\r", "\n", "\r\n"])
+    delim = rng.choice(permitted(first_setting))
+    first = "".join("".join(rng.choice("abxy") for _ in range(total)) + delim for _ in range(rng.randint(2, 5)))
+    generator = rowio.fixed_rows(io.StringIO(first, newline=""), "utf-8", fields, first_setting)
+    try:
+        for _ in range(rng.randint(1, 2)):
+            next(generator)
+    except (StopIteration, errors.DataFormatError):
+        pass
+    how = rng.choice(["close", "drop", "keep"])
+    if how == "close":
+        generator.close()
+    elif how == "drop":
+        del generator
+    second_setting = rng.choice(SETTINGS)
+    delims = permitted(second_setting)
+    parts = []
+    for _ in range(rng.randint(1, 4)):
+        parts.append("".join(rng.choice("abxy") for _ in range(total)))
+        if second_setting is not None:
+            parts.append(rng.choice(delims))
+    second = "".join(parts)
+    case = {"text": second, "widths": list(widths), "setting": second_setting, "after_abandoned_read_of": first, "first_setting": first_setting, "abandoned": how}
+    ctx.case(case, True)
+    ctx.count("after-abandoned-read.judged")
+    judge(ctx, rowio.fixed_rows, errors, second, widths, second_setting, fields)
 
 
 def judge_mutant(ctx, rowio, errors, text, widths, setting, fields, file_encoding):
@@ -220,6 +257,19 @@ def judge_mutant(ctx, rowio, errors, text, widths, setting, fields, file_encodin
 
 def replay(ctx, case):
     from cutplace import errors, rowio
+
+    if "after_abandoned_read_of" in case:
+        fields = [("f%d" % i, w) for i, w in enumerate(case["widths"])]
+        generator = rowio.fixed_rows(io.StringIO(case["after_abandoned_read_of"], newline=""), "utf-8", fields, case["first_setting"])
+        try:
+            next(generator)
+        except Exception:
+            pass
+        if case.get("abandoned") == "close":
+            generator.close()
+        ctx.case(case, True)
+        judge(ctx, rowio.fixed_rows, errors, case["text"], tuple(case["widths"]), case["setting"], fields)
+        return
 
     fields = [("f%d" % i, w) for i, w in enumerate(case["widths"])]
     judge_mutant(ctx, rowio, errors, case["text"], tuple(case["widths"]), case["setting"], fields, case.get("file_encoding"))
